@@ -94,6 +94,29 @@ static mut PROBE: Option<ChessMove> = None;
 static mut PROBE_THIS: u32 = 0;
 static mut PROBE_MAX: u32 = 0;
 static mut PROBE_PASS0: u32 = 0;
+/// what the oracle answered at depth 1, per pass (pass index = PASSES - 1) and call order
+const MAXPASS: usize = 6;
+static mut ANSWERS: [[Option<(ChessMove, Score)>; NM]; MAXPASS] = [[None; NM]; MAXPASS];
+static mut ANSWERED: [usize; MAXPASS] = [0; MAXPASS];
+fn record_answer(mv: ChessMove, s: Score) {
+    unsafe {
+        let p = (PASSES - 1) as usize;
+        if p < MAXPASS && ANSWERED[p] < NM {
+            ANSWERS[p][ANSWERED[p]] = Some((mv, s));
+            ANSWERED[p] += 1;
+        }
+    }
+}
+/// was (mv, s) one of the answers given during pass p
+fn answered_in_pass(p: usize, mv: ChessMove, s: Score) -> bool {
+    let mut f = false;
+    let mut i = 0;
+    while i < NM {
+        f |= unsafe { ANSWERS[p][i] } == Some((mv, s));
+        i += 1;
+    }
+    f
+}
 /// tag carried by boards that the make-move stub returns (children of the root)
 const CHILD_TAG: u64 = 0x5eed_c41d_0000_0001;
 
@@ -109,8 +132,10 @@ fn handle(which: usize) -> MoveGen {
 }
 fn stub_legals(b: &Board) -> MoveGen {
     if b.verif_parts().zobrist == CHILD_TAG {
-        // a fresh, arbitrary list for the child position
-        unsafe { LISTS[CHILD] = Some(List::any()) };
+        // a fresh, arbitrary list for the child position (at most two replies)
+        let mut l = List::any();
+        kani::assume(l.n <= 2);
+        unsafe { LISTS[CHILD] = Some(l) };
         return handle(CHILD);
     }
     unsafe {
@@ -174,8 +199,10 @@ unsafe fn stub_move_unchecked(_b: &Board, _mv: ChessMove) -> Board {
     let mut parts = b.verif_parts();
     parts.zobrist = CHILD_TAG;
     b = Board::verif_from_raw(*b.raw(), parts);
+    unsafe { CHILD_IN_CHECK = b.in_check() };
     b
 }
+static mut CHILD_IN_CHECK: bool = false;
 fn stub_eval(_e: &mut Engine, _b: &Board, _d: u16) -> Score {
     Score::Raw(kani::any())
 }
@@ -190,6 +217,11 @@ pub struct Clock {
     pub expire_with_second_pass: bool,
     /// search calls at this depth and deeper are answered by the oracle
     pub oracle_from_depth: u16,
+    /// alternative rule (used when the depth is symbolic): this many calls run for real, every
+    /// later one is answered by the oracle - a CONCRETE counter, so that symbolic execution sees
+    /// syntactically where the recursion stops
+    pub real_calls_left: Cell<u32>,
+    pub count_rule: bool,
     pub calls: Cell<u32>,
     pub illegal_call: Cell<bool>,
     pub mate_for: Option<Color>,
@@ -213,7 +245,12 @@ impl Timeout for Clock {
     fn verif_real_search(&self, current_depth: u16) {
         // below the oracle depth nothing runs for real: an explicit cut, so that symbolic
         // execution does not unfold the recursion
-        if current_depth >= self.oracle_from_depth {
+        if self.count_rule {
+            if self.real_calls_left.get() == 0 {
+                kani::assume(false);
+            }
+            self.real_calls_left.set(self.real_calls_left.get() - 1);
+        } else if current_depth >= self.oracle_from_depth {
             kani::assume(false);
         }
     }
@@ -228,7 +265,11 @@ impl Timeout for Clock {
                 unsafe { PROBE_THIS += 1 };
             }
         }
-        if current_depth < self.oracle_from_depth {
+        if self.count_rule {
+            if self.real_calls_left.get() > 0 {
+                return None;
+            }
+        } else if current_depth < self.oracle_from_depth {
             return None;
         }
         // the deeper search polls the timeout some number of times
@@ -244,6 +285,9 @@ impl Timeout for Clock {
         match s {
             Score::WhiteMateIn(n) | Score::BlackMateIn(n) => kani::assume(n >= current_depth),
             _ => {}
+        }
+        if current_depth == 1 {
+            record_answer(mv, s);
         }
         if let Some(c) = self.mate_for {
             let mate1 = match c {
@@ -263,7 +307,10 @@ pub fn any_root_board() -> Board {
     use chess_movegen::raw::RawBoard;
     let colors = [anyv::bb(), anyv::bb()];
     kani::assume((colors[0] & colors[1]).none());
-    let raw = RawBoard::verif_from_parts(colors, [anyv::bb(), anyv::bb(), anyv::bb(), anyv::bb(), anyv::bb(), anyv::bb()]);
+    let pieces = [anyv::bb(), anyv::bb(), anyv::bb(), anyv::bb(), anyv::bb(), anyv::bb()];
+    // every occupied square holds a piece and vice versa (what every constructor guarantees, C06)
+    kani::assume((pieces[0] | pieces[1] | pieces[2] | pieces[3] | pieces[4] | pieces[5]) == (colors[0] | colors[1]));
+    let raw = RawBoard::verif_from_parts(colors, pieces);
     Board::verif_from_raw(
         raw,
         chess_movegen::verif::VerifParts {
@@ -288,6 +335,8 @@ fn new_clock(k: u32, probe: ChessMove, mate_for: Option<Color>, oracle_from_dept
         expire_at: k,
         expire_with_second_pass: false,
         oracle_from_depth,
+        real_calls_left: Cell::new(0),
+        count_rule: false,
         calls: Cell::new(0),
         illegal_call: Cell::new(false),
         mate_for,
@@ -338,6 +387,16 @@ pub fn c11_root_loop_returns_a_legal_move_for_every_expiry_instant() {
     unsafe {
         assert!(PROBE_THIS <= 1 && PROBE_MAX <= 1);
     }
+    // the result is the result of the LAST COMPLETED pass, never of one the limit cut short:
+    // the last started pass completed iff the limit has not expired by the time the search
+    // returns (expiry is monotone); otherwise the pass before it is the last completed one
+    if let Some(m) = mv {
+        let passes = unsafe { PASSES } as usize;
+        let expired = clock.expired();
+        assert!(passes >= 1 && (!expired || passes >= 2));
+        let committed = if expired { passes - 2 } else { passes - 1 };
+        assert!(answered_in_pass(committed, m, _score));
+    }
     if list(ROOT).n == 0 {
         assert!(mv.is_none());
         assert!(clock.calls.get() == 0);
@@ -379,44 +438,6 @@ pub fn c11_first_pass_commits_and_visits_every_move_once() {
 }
 // harness: c11_first_pass_commits_and_visits_every_move_once
 
-/// One REAL level of alphabeta under the real root loop (oracle from depth 2): the result of the
-/// whole search still obeys C11, and the real level satisfies contracts A and M that the root
-/// queries assume of the oracle - observed at the root: a committed result is never a sentinel,
-/// and a committed mate score never has distance 0.
-search_harness! {
-#[kani::proof]
-#[kani::unwind(8)]
-pub fn c11_real_level_obeys_the_oracle_contracts_t() {
-    let board = setup_root();
-    kani::assume(list(ROOT).n <= 1);
-    // expiry: any poll index up to 3 (inside the child loop of the real level included)
-    let k: u32 = kani::any();
-    kani::assume(k <= 6);
-    let mut clock = new_clock(k, anyv::mv(), None, 2);
-    clock.expire_with_second_pass = true;
-    let tf = ThreeFold::default();
-    let mut engine = Engine::default();
-    let (mv, score) = engine.search(&board, &tf, &clock);
-    assert!(!clock.illegal_call.get());
-    if let Some(m) = mv {
-        assert!(in_list(m));
-        // contract A seen from the root: a committed move comes with a real score
-        assert!(!matches!(score, Score::Min | Score::Max));
-        // contract M: mate distances count plies from the root, starting at 1
-        match score {
-            Score::WhiteMateIn(n) | Score::BlackMateIn(n) => assert!(n >= 1),
-            _ => {}
-        }
-    }
-    if list(ROOT).n == 0 {
-        assert!(mv.is_none());
-    }
-    kani::cover!(mv.is_some());
-    kani::cover!(matches!(score, Score::WhiteMateIn(1)));
-}
-}
-// harness: c11_real_level_obeys_the_oracle_contracts_t
-
 // ------------------------------------------------------------------------------------- C12
 
 search_harness! {
@@ -451,46 +472,77 @@ pub fn c12_root_reports_mate_in_one_truthfully() {
 }
 // harness: c12_root_reports_mate_in_one_truthfully
 
-/// the REAL terminal detection one level below the root: with a single root move whose child
-/// position has no legal move, the search reports mate in one for the mover exactly when the
-/// child is in check, and a draw score otherwise; with legal replies it never reports mate in one
+// ---------------------------------------------------------------- one level of the recursion
+/// ONE real call of the recursive search (through the hook `Engine::verif_alphabeta`), at an
+/// arbitrary depth d, with the calls it makes (depth d+1) answered by the oracle under contracts
+/// A and M(d+1); make-move, the child's move list, evaluation and the repetition count are
+/// arbitrary. Decided for the real code:
+///  * contract A: if the limit has not expired when it returns, the score is not a sentinel;
+///  * contract M(d): a mate score it returns has distance >= d, and distance exactly d is returned
+///    iff the position after the move has no legal move and is in check (C12's terminal test),
+///    with the colour of the side that delivered the mate;
+///  * no legal move and not in check, fifty-move clock >= 100, third repetition: draw (Raw 0).
+/// This closes the induction over the recursion depth that the root queries rely on.
+fn unit_level(white_policy: bool) {
+    let parent = any_root_board();
+    unsafe { LISTS[ROOT] = Some(List::any()) };
+    let mv = anyv::mv();
+    let d: u16 = kani::any();
+    kani::assume(d >= 1 && d <= 1000);
+    let rem: u16 = kani::any();
+    let k: u32 = kani::any();
+    kani::assume(k <= 3);
+    let clock = new_clock(k, mv, None, 0);
+    // run exactly one call for real (the one at depth d), answer everything it calls
+    let clock = Clock { count_rule: true, real_calls_left: Cell::new(1), ..clock };
+    let tf = ThreeFold::default();
+    let mut engine = Engine::default();
+    let alpha = anyv::score();
+    let beta = anyv::score();
+    unsafe { PASSES = 1 };
+    let s = engine.verif_alphabeta(white_policy, mv, &parent, &tf, &clock, rem, d, alpha, beta);
+    let child = unsafe { LISTS[CHILD] };
+    // the side that just moved is the opposite of the policy's colour
+    let mate_now = if white_policy { Score::BlackMateIn(d) } else { Score::WhiteMateIn(d) };
+    // contract A
+    if !clock.expired() {
+        assert!(!matches!(s, Score::Min | Score::Max));
+    }
+    // contract M(d)
+    match s {
+        Score::WhiteMateIn(n) | Score::BlackMateIn(n) => assert!(n >= d),
+        _ => {}
+    }
+    if let Some(c) = child {
+        // the child position's list was asked for: terminal test on it
+        if c.n == 0 {
+            // no legal move: mate for the side that moved iff in check, else a draw
+            assert!(s == if unsafe { CHILD_IN_CHECK } { mate_now } else { Score::Raw(0) });
+        } else {
+            // with a legal reply the position is not a mate in d for the side that moved
+            assert!(s != mate_now);
+        }
+    } else {
+        // the list was never asked for: only the insufficient-material draw returns that early
+        assert!(s == Score::Raw(0));
+    }
+    kani::cover!(s == mate_now);
+    kani::cover!(s == Score::Raw(0) && child.is_none());
+    kani::cover!(matches!(s, Score::Raw(x) if x != 0));
+}
 search_harness! {
 #[kani::proof]
 #[kani::unwind(8)]
-pub fn c12_real_terminal_detection_below_the_root_t() {
-    let board = setup_root();
-    kani::assume(list(ROOT).n == 1);
-    let us = board.turn();
-    // the first pass cannot be cut short
-    let mut clock = new_clock(u32::MAX, anyv::mv(), None, 2);
-    clock.expire_with_second_pass = true;
-    let tf = ThreeFold::default();
-    let mut engine = Engine::default();
-    // what the single child position looks like is read back from the stubs' last child
-    let (mv, score) = engine.search(&board, &tf, &clock);
-    assert!(mv == Some(list(ROOT).mv[0]));
-    let mate1 = match us {
-        Color::White => Score::WhiteMateIn(1),
-        Color::Black => Score::BlackMateIn(1),
-    };
-    let wrong_colour_mate1 = match us {
-        Color::White => Score::BlackMateIn(1),
-        Color::Black => Score::WhiteMateIn(1),
-    };
-    // the mover can never be the one who is mated in one ply of his own
-    assert!(score != wrong_colour_mate1);
-    let child = unsafe { LISTS[CHILD] };
-    if let Some(c) = child {
-        if unsafe { PASSES } == 1 || score == mate1 {
-            // (the child list of the LAST real call; with a mate score the search stopped after
-            // pass 0, so it is pass 0's child)
-            if c.n > 0 {
-                assert!(score != mate1);
-            }
-        }
-    }
-    kani::cover!(score == mate1);
-    kani::cover!(score == Score::Raw(0));
+pub fn c12_one_level_white_policy_contracts_and_terminal_test() {
+    unit_level(true)
 }
 }
-// harness: c12_real_terminal_detection_below_the_root_t
+// harness: c12_one_level_white_policy_contracts_and_terminal_test
+search_harness! {
+#[kani::proof]
+#[kani::unwind(8)]
+pub fn c12_one_level_black_policy_contracts_and_terminal_test() {
+    unit_level(false)
+}
+}
+// harness: c12_one_level_black_policy_contracts_and_terminal_test
